@@ -133,7 +133,10 @@ def django_rawsql_used(context):
                 sql = context.node.args[0]
             else:
                 kwargs = keywords2dict(context.node.keywords)
-                sql = kwargs["sql"]
+                sql = kwargs.get("sql")
+                if sql is None:
+                    # RawSQL() / RawSQL(**kw): no SQL expression to judge
+                    return
 
             if not isinstance(sql, ast.Str):
                 return bandit.Issue(
